@@ -24,6 +24,10 @@ CLAIMED = {
   "text": "Bounded symbolic model checking on the real EVM over a real AccountDB: for every opcode byte executed in a read-only frame (also after a nested STATICCALL returned) and for every combination of 8 state mutators with 4 frame endings and 3 call values, every observer of the state (balances, nonce, storage, transient storage, logs, self-destruct flags, existence, code, state root) answers as before when the frame was static or failed; Prepare leaves no access-list / transient-storage / refund residue for arbitrary addresses and slots.",
   "note": "Trusted: gosym and its models, z3. Most inputs of these harnesses are enumerated choices (opcode byte, mutator, ending); symbolic values are the address/slot/value of the scratch-state harness. Nesting depth two.",
  },
+ "C09": {
+  "text": "Bounded symbolic model checking of the conversion layer between wire messages and the node's block/header/transaction/group objects (pbTo*/ *ToPb, Marshal*/UnMarshal*, GenHash): no panic for any presence pattern of optional fields; a header with symbolic integers, instants in three zones, prove values with leading zero bytes, optional byte fields and request-id maps keeps its content and its identifying hash through serialise/parse.",
+  "note": "Trusted: gosym, z3, and the library codecs (protobuf, encoding/json) modelled by contract: identity on message structs / injective serialisation; SHA-256 as an injective uninterpreted function. The protobuf wire decoder on raw bytes is outside.",
+ },
 }
 PENDING = "check not built yet in this session (planned, see DESIGN.md section 5)"
 NA = {
